@@ -534,6 +534,9 @@ def _bcast_scalar(x, shape):
         return x
     if x.shape == ():
         return SArr(shape, x.kind, lambda idx: x.at(()), x.dtype)
+    if len(x.shape) == len(shape) and all((isinstance(d, int) and d == 1) or key_of(d) == key_of(e) for d, e in zip(x.shape, shape)):
+        ones = [isinstance(d, int) and d == 1 and not (isinstance(e, int) and e == 1) for d, e in zip(x.shape, shape)]
+        return SArr(shape, x.kind, lambda idx: x.at(tuple(0 if o else i for o, i in zip(ones, idx))), x.dtype)
     raise Unsupported(f"implicit broadcast {x.shape} -> {shape}")
 
 
@@ -541,7 +544,10 @@ def elementwise(op, kind=None):
     def r(ctx, eqn, *xs):
         shp = out_shape(ctx, eqn)
         k = kind or out_kind(eqn)
-        xs = [_bcast_scalar(x, shp) for x in xs]
+        try:
+            xs = [_bcast_scalar(x, shp) for x in xs]
+        except Unsupported as e:
+            raise Unsupported(f"{e} in {eqn.primitive.name} {[str(v.aval) for v in eqn.invars]}")
         return [SArr(shp, k, lambda idx: op(*[x.at(idx) for x in xs]), eqn.outvars[0].aval.dtype)]
     return r
 
